@@ -17,6 +17,14 @@ SESSIONS (spec/OpsSession.tla, MC_OpsSession.tla, Trace_OpsSession.tla): a heap 
      caller's list in place must violate PoolUntouched.  S2C: TLC's histories replayed on ONE set of real objects,
      the heap (members by identity, operands by value) looked at again after every step.  C2S: random histories of
      3..6 steps judged by Trace_OpsSession, which threads its own heap through the history.
+     IN-PLACE EDITS (OpsSession!ShapeKeeping): between calls the caller re-dates an operand (shifts the index, replaces one
+     stamp), renames / re-orders the columns of a frame, overwrites every other cell - the object and its shape stay, so
+     whatever a call remembered about it (identity, length, shape) is stale.  TLC's simulator draws histories
+     call ; edit ; the same call / another operator / the other index or column policy / a fill method on the same objects
+     (calls on two plain objects included, with pow_ and the comparisons); random histories do the same for C2S.
+LAW ADDITIONS (spec/OpsLaw.tla): the fill method of the operators (None, ffill, bfill, 0, 1: align as C03 says, then operate),
+     the comparisons under columns='oj' with differing column sets (a column one side lacks is no data: False), sub_ / div_
+     with a list on either side in the single-call families (zeros inside a list of denominators).
 Values cross the boundary exactly (float.as_integer_ratio); NaN is a tag.
 """
 import json
@@ -653,7 +661,11 @@ def run(ctx):
                 'Non-trivial = the expected result is neither empty nor equal to one of the operands; distinct by (operands, operator, policies). '
                 'Sessions: TLC-enumerated (thorough: also TLC-simulated) histories of calls and caller actions on one heap of real objects, '
                 'after every step heap == the heap TLC printed and outcome in the outcomes TLC printed; random histories validated by '
-                'Trace_OpsSession. A session counts when every step was explained; distinct by (policies, heap, history).')
+                'Trace_OpsSession. A session counts when every step was explained; distinct by (policies, heap, history). '
+                'Edited-in-place sessions: TLC-simulated histories call ; shape-keeping edit of an operand (shift / restamp / rename / reorder / '
+                'pokes) ; same call, ring operator, other policy or fill method on the same objects - every edit kind must be followed by '
+                'a call of every operator family, both index and both column policies and a call on two plain objects (else exit 2). '
+                'Fill methods: TLC-enumerated pairs x operator x policies x {ffill, bfill, 0, 1}, == with OpsLaw!OpsOutcomes.')
     report = Reporter(ctx)
     ctx.exhaustive = True
     if ctx.quick:
@@ -679,7 +691,9 @@ def run(ctx):
         'values are drawn from families on which every operation is exact in binary floating point (0 and +-powers of two for + - * / '
         'comparisons min max; multiples of 12 (6) for sums and means of <= 4 operands; exponents 0..3)',
         'the plain pointwise power is IEEE-754 pow (x**0 = 1, 1**y = 1 also for NaN)',
-        "column policy 'oj' with differing column sets is checked only for the operations that have a neutral element (+ - * /) and the aggregates",
+        "column policy 'oj' with differing column sets is checked for the operations that have a neutral element (+ - * /), the aggregates "
+        "and the comparisons (named reading OpsLaw!OpsMissingColumnNoData: a column one side lacks is no data there, every comparison with it "
+        "is False); pow_ / min_ / max_ are checked under 'oj' when the column sets agree",
         "column policy 'ij' is checked when the multi-column frames share at least one column (with none there is no cell to speak of; "
         "the code then returns an empty Series, as presync's docstring documents); with three or more operands, when they share at least two "
         "(a frame reduced to a single column travels on as a pseudo-series)",
@@ -688,9 +702,15 @@ def run(ctx):
         'are accepted (OpsSession!CutListReading; the same data for a single left operand unless a series is broadcast over frames '
         "with different columns under 'oj': MC_OpsSession!RightListPinned); tuples are lists of operands for the folds and aggregates only",
         'sessions: 2..4 operands per call, the frames of a heap share the columns a and b, one scalar object per heap; aggregates of '
-        'mixed shapes (recorded finding C08-aggregate-mixed-shapes) are left to the single-call families; the pair of two different '
-        'objects without a container is left to MC_Ops; pow_ is not part of the sessions',
+        'mixed shapes (recorded finding C08-aggregate-mixed-shapes) are left to the single-call families; in the two-call family the pair '
+        'of two different objects without a container is left to MC_Ops, the edited-in-place and simulated families have it (with pow_ and '
+        'the comparisons; pow_ is not drawn by the random C2S sessions)',
+        'in-place edits keep the index ascending and unique (shift by one day, one stamp moved one day on where that day is free), rename one '
+        'column to a name the frame does not have, re-order = first physical column moved last, pokes = every other cell (of a frame: in '
+        'its first column) set to NaN or 0',
         'a one-column frame is a series whose header is ignored (presync docstring; reading PseudoSeries); the one-column frames of a '
         'tuple share their header (with different headers the df_sync based min_/max_/df_sum/df_mean/df_count return all-NaN columns)',
-        'no fill method (method=None); df_std excluded (not exact)',
+        'fill methods None, ffill, bfill, 0, 1 for calls with two operands (with more the statement does not say whether intermediate '
+        'results are filled again: OpsLaw!OpsMethodOK); for frames both readings of C03 (row / cell) are accepted; none for the aggregates; '
+        'df_std excluded (not exact)',
         'small-scope: MC/S2C over <= 3 (thorough 4) timestamps; C2S over <= 30']
